@@ -75,6 +75,11 @@ EXTRA_AUDIT = ("HedVerif.Props.Closed", [
     "HedVerif.C08.string_fault_category_closed",
     "HedVerif.C08.string_fault_value_closed",
     "HedVerif.C08.sidecar_pipeline_example_closed",
+    "HedVerif.C08.extract_stage_closed",
+    "HedVerif.C08.validate_eq_closedD",
+    "HedVerif.C08.sidecar_total_closedD",
+    "HedVerif.C08.defs_extracted_closed",
+    "HedVerif.C08.sidecar_defs_example_closed",
 ])
 
 # ------------------------------------------------------------------------------------------ extraction
